@@ -87,7 +87,8 @@ let () =
              | EvWait (t, n) -> Printf.sprintf "w %s %s\n" (string_of_z t) (string_of_z n)
              | EvUsleep -> "usleep\n"
              | EvRunRet -> "runret\n"
-             | EvUaf w -> Printf.sprintf "uaf %s\n" (string_of_z w))) evs;
+             | EvUaf w -> Printf.sprintf "uaf %s\n" (string_of_z w)
+             | EvAdd _ | EvInv _ | EvDel _ -> "")) evs;
     printed := n in
   let get () = match !st with
     | Some s -> s
